@@ -30,14 +30,15 @@ pub fn replay(args: &Args) -> i32 {
     for b in read_ndjson(args.req("in")) {
         rep.case(&json!([b["s1"], b["s2"]]), b["s1"].as_array().unwrap().len() + b["s2"].as_array().unwrap().len() > 0);
         let mut wb = biff::Workbook::default();
-        wb.sheets.push(sheet("S1", &b["s1"]));
-        wb.sheets.push(sheet("S2", &b["s2"]));
+        // workbook order differs from alphabetical order
+        wb.sheets.push(sheet("Zulu", &b["s1"]));
+        wb.sheets.push(sheet("Alpha", &b["s2"]));
         let bytes = biff::xls_bytes(&wb);
         let got = catch(|| -> Result<Value, String> {
             let mut x: Xls<_> = Xls::new(Cursor::new(bytes)).map_err(|e| format!("open: {}", e))?;
             let f = |v: Option<Vec<calamine::Dimensions>>| v.map(|v| json!(v.iter().map(|d| json!([d.start.0, d.end.0, d.start.1, d.end.1])).collect::<Vec<_>>()));
-            let a1 = f(x.worksheet_merge_cells("S1"));
-            let a2 = f(x.worksheet_merge_cells("S2"));
+            let a1 = f(x.worksheet_merge_cells("Zulu"));
+            let a2 = f(x.worksheet_merge_cells("Alpha"));
             let b1 = x.worksheet_merge_cells_at(0).map(|v| json!(v.iter().map(|d| json!([d.start.0, d.end.0, d.start.1, d.end.1])).collect::<Vec<_>>()));
             let b2 = x.worksheet_merge_cells_at(1).map(|v| json!(v.iter().map(|d| json!([d.start.0, d.end.0, d.start.1, d.end.1])).collect::<Vec<_>>()));
             if a1 != b1 || a2 != b2 { return Err("worksheet_merge_cells_at differs from worksheet_merge_cells".into()); }
